@@ -16,7 +16,13 @@ import numpy as np
 from . import env  # noqa: F401
 import fsic
 
-EXC = {'ZeroDivisionError': ZeroDivisionError, 'ValueError': ValueError, 'KeyError': KeyError,
+class UserDefined(Exception):
+    """An exception class of the model author's own (derives from Exception directly)."""
+
+
+EXC = {'UserDefined': UserDefined, 'AssertionError': AssertionError, 'NotImplementedError': NotImplementedError,
+       'StopIteration': StopIteration, 'OSError': OSError,
+       'ZeroDivisionError': ZeroDivisionError, 'ValueError': ValueError, 'KeyError': KeyError,
        'RuntimeError': RuntimeError, 'FloatingPointError': FloatingPointError,
        # the library's own exception classes can come out of user code too (e.g. a nested model solved inside a pass)
        'SolutionError': fsic.exceptions.SolutionError, 'NonConvergenceError': fsic.exceptions.NonConvergenceError,
